@@ -64,9 +64,20 @@ PROPS = {
  "C19": (True, "proof", T_P,
          "Proved for unbounded integers: every method of BTrees.Length, the resolution formula in both orders. "
          "Pickle/copy survival is a bounded run-time check.", "A1, A7", "7/C19"),
- "C04": (False, "proof", T_P + BOUNDED, "", "", "7/C04"),
- "C05": (False, "proof", T_C + BOUNDED, "", "", "7/C05"),
- "C08": (False, "other", T_P + BOUNDED, "", "", "7/C08"),
+ "C04": (True, "proof", T_P + BOUNDED,
+         "Proved: every Python leaf mutator requests registration exactly when the leaf's serialised state changes. "
+         "Bounded: interior nodes, the C implementation, commit/reload/abort end to end with a stub data manager (persist_rt).",
+         "A1-A3, A7; L-persist argued in DESIGN.md 5.4; T-DIRTY for C not discharged; recorded finding: non-root node inlining its only leaf", "7/C04"),
+ "C05": (True, "proof", T_C + BOUNDED,
+         "Proved for every function of the translation units, every exit: no pin outlives the call (T-PIN over the real "
+         "->state field, Houdini-chosen loop invariants, callees by the same contract). Bounded: transparent reload and "
+         "protection during comparisons (evict_rt: sweeps between calls and inside comparisons).",
+         "A4 which API calls may run Python, A5, A6, A7; T-USE not discharged; recorded finding: no pinning in the Python implementation", "7/C05"),
+ "C08": (True, "other", T_P + "; " + T_C + BOUNDED,
+         "Proved: the read-dependency sentence in both implementations (P:RC typestate on _Tree._set/_del and the tree "
+         "lookups; T-RC on all C functions) and the reason-11 refusal. Not within reach of this family: outcomes over "
+         "schedules - bounded stand-ins with a stub optimistic commit (conc_rt) and exhaustive merge triples (merge_rt).",
+         "A1-A7; the stub commit protocol is a stated model of ZODB, which is absent", "7/C08"),
  "C14": (False, "proof", T_P + BOUNDED, "", "", "7/C14"),
  "C15": (True, "exploration", "bounded run-time contract stand-in (iter_rt), crash-isolated in child processes",
          "Bounded only: interleavings of <= 4 iterator steps / index reads with <= 4 mutations on 8-key trees at node sizes 2/2, 3/2, all kinds, both implementations.",
